@@ -178,8 +178,7 @@ def measure_variants():
                 lambda r: r.shape == (2,))
     x = odl.uniform_discr(0, 1, 3).one()
     boolouter = works(lambda: np.less.outer(x, x), lambda r: r.shape == (3, 3))
-    arrdt = works(lambda: np.asarray((odl.rn(2) ** 2).one(), dtype=float), lambda r: r.shape == (2, 2))
-    return {'grow': grow, 'negaxis': neg, 'boolouter': boolouter, 'arrdt': arrdt}
+    return {'grow': grow, 'negaxis': neg, 'boolouter': boolouter}
 
 
 VARIANTS = None
@@ -1073,8 +1072,8 @@ def legacy2_cases(rng, tier):
                                     raise
                                 except Exception as e:   # noqa
                                     obs, summ = '(TErr %s)' % classify(e), classify(e)
-                                t = '(mkL2Case %s %s %s %s %s %s %s %s)' % (
-                                    C.b(measure_variants_cached()['arrdt']), BOPS[name], C.lst(['(%s, %s)' % (dt_term(dtype), dt_term(rd))]), C.b(with_out),
+                                t = '(mkL2Case %s %s %s %s %s %s %s)' % (
+                                    BOPS[name], C.lst(['(%s, %s)' % (dt_term(dtype), dt_term(rd))]), C.b(with_out),
                                     tree_term(X), x2t, obs, ref_t)
                             except Skip:
                                 continue
@@ -1806,8 +1805,10 @@ def legacy2_key(spec, cat):
         return 'pspace-integer-space-truncates-float-results'
     if cat.endswith('-dtype'):
         return 'pspace-result-dtype-forced-to-space-dtype'
-    if cat == 'numpy-raises' and kind == 'space' and spec['x2'][1][0] == 0:
-        return 'pspace-array-dtype-argument'
+    if cat.startswith('numpy-') and kind == 'space' and spec['x2'][1][0] == 0:
+        # np.<ufunc>(power-space element, tensor element): the tensor element is the only operand with
+        # __array_ufunc__, so NumpyTensor.__array_ufunc__ handles the call and cannot hold the larger result
+        return 'pspace-tensor-operand-dispatches-to-tensor'
     return 'legacy2-%s-%s-%s' % (spec['ufunc'], kind, cat)
 
 
@@ -1897,8 +1898,55 @@ def sharing_eval(spec):
     return True, '', None, None
 
 
+def pspace_asarray_eval(spec):
+    """np.asarray / np.array of a power-space element with and without dtype="""
+    import odl
+    dims, n = tuple(spec['dims']), spec['n']
+    sp = odl.tensor_space(n, dtype=spec['dtype'])
+    for k in reversed(dims):
+        sp = sp ** k
+    full = dims + (n,)
+    data = np.array(spec['x'], dtype=spec['dtype']).reshape(full)
+    X = sp.element(data)
+    want = data if spec['as'] is None else data.astype(spec['as'])
+    for how in ('asarray', 'array', '__array__'):
+        try:
+            if how == '__array__':
+                got = X.__array__() if spec['as'] is None else X.__array__(np.dtype(spec['as']))
+            else:
+                f = getattr(np, how)
+                got = f(X) if spec['as'] is None else f(X, dtype=spec['as'])
+        except Exception as e:      # noqa
+            return False, how + '-raises', '%s: %s' % (type(e).__name__, str(e)[:100]), 'an array of dtype %s' % want.dtype
+        if not isinstance(got, np.ndarray) or got.dtype != want.dtype or not _same(got, want):
+            return False, how + '-values', (str(getattr(got, 'dtype', None)), np.asarray(got).tolist()), \
+                (str(want.dtype), want.tolist())
+    if spec['as'] is None and X.asarray().dtype != np.dtype(spec['dtype']):
+        return False, 'asarray-dtype', str(X.asarray().dtype), spec['dtype']
+    return True, '', None, None
+
+
 def structural_probes(rng, tier):
     out = []
+    # ---- np.asarray(X[, dtype]) of power-space elements (repaired by /repo commit f3f904a)
+    for dims in ((2,), (2, 3), (1, 2, 2)):
+        for dtype in ('float64', 'float32', 'int64', 'complex128'):
+            for as_ in (None, 'float64', 'float32', 'complex128', 'int64'):
+                if as_ is not None and np.dtype(dtype).kind == 'c' and np.dtype(as_).kind != 'c':
+                    continue
+                n = rng.choice([1, 2, 3])
+                spec = {'dims': list(dims), 'n': n, 'dtype': dtype, 'as': as_,
+                        'x': [rng.randint(-4, 4) for _ in range(int(np.prod(dims)) * n)]}
+                try:
+                    ok, cat, obs, exp = pspace_asarray_eval(spec)
+                except Exception as e:      # noqa
+                    ok, cat, obs, exp = False, 'crash', repr(e), None
+                rp = ("import sys\nsys.path.insert(0, %r)\nfrom harness.c17 import pspace_asarray_eval\nspec = %r\n"
+                      "ok, category, observed, expected = pspace_asarray_eval(spec)\n" % (C.VERIF, spec))
+                out.append(C.Probe(bool(ok), 'pspace-array-dtype-argument' if as_ is not None else 'pspace-asarray-%s' % cat,
+                                   'np.asarray / np.array / __array__ of a power-space element %s over tensor_space(%d, %s)'
+                                   ' with dtype=%s' % (dims, n, dtype, as_), rp,
+                                   {'category': cat, 'observed': obs, 'expected': exp}))
     reps = 2 if tier == 'quick' else 8
     # ---- sharing / round trip
     for _ in range(reps):
